@@ -364,3 +364,81 @@ void h_xq_check(void)
     V_ASSERT(req->holds == req0.holds && req->flags.bits[0] == req0.flags.bits[0], "C02: the query builder neither takes nor releases hard holds");
     V_CANARY();
 }
+
+/* ======================================================= C17: reload reaches the service table
+ * real iauth_xquery_services_changed + iauth_xquery_config_service + iauth_xquery_unref from an
+ * arbitrary previous table (holes, stale entries) and a section with up to two string children:
+ * afterwards the configured services are exactly the section's valid entries, whatever was
+ * there before (== what a fresh start builds). */
+struct { unsigned n; unsigned char type[2]; } in_section;          /* children "sA","sB"; type 0..3 or 4 = unknown word */
+struct { unsigned used; unsigned char who[2]; unsigned char cfg[2]; unsigned refs[2]; unsigned char otype[2]; } in_oldtbl;   /* who: 0 hole, 1 "sA", 2 "sB", 3 "sC" */
+static const char *tnames[5] = { "login", "login-ipr", "dronecheck", "combined", "bogus" };
+static const char *snames[4] = { "", "sA", "sB", "sC" };
+
+static struct conf_node_string *mk_child(const char *name, const char *value)
+{
+    struct set_node *n = malloc(sizeof(struct set_node) + sizeof(struct conf_node_string));
+    struct conf_node_string *c;
+    V_ASSUME(n != NULL);
+    c = set_node_data(n);
+    memset(c, 0, sizeof(*c));
+    c->base.name = (char *)name; c->base.type = CONF_STRING; c->value = (char *)value;
+    n->l = n->r = n->prev = n->next = NULL;
+    return c;
+}
+
+void h_xq_services_changed(void)
+{
+    static struct conf_node_object root;
+    struct conf_node_string *c0 = NULL, *c1 = NULL;
+    struct iauth_xquery_service *old[2] = { NULL, NULL };
+    unsigned i, k;
+    V_IN(in_section); V_IN(in_oldtbl);
+    V_ASSUME(in_section.n <= 2 && in_section.type[0] <= 4 && in_section.type[1] <= 4);
+    V_ASSUME(in_oldtbl.used <= 2);
+    memset(&root, 0, sizeof(root));
+    root.base.name = "iauth_xquery"; root.base.type = CONF_OBJECT;
+    root.contents.compare = NULL; root.contents.cleanup = NULL;
+    if (in_section.n >= 1) { c0 = mk_child("sA", tnames[in_section.type[0]]); root.contents.root = set_node(c0); root.contents.count = 1; }
+    if (in_section.n >= 2) { c1 = mk_child("sB", tnames[in_section.type[1]]); set_node(c0)->next = set_node(c1); set_node(c1)->prev = set_node(c0); root.contents.count = 2; }
+    xq_conf.root = &root;
+    /* previous table */
+    for (i = 0; i < 2; i++) {
+        V_ASSUME(in_oldtbl.who[i] <= 3 && in_oldtbl.otype[i] <= 3 && in_oldtbl.refs[i] < 1000);
+        if (i < in_oldtbl.used && in_oldtbl.who[i] != 0) {
+            old[i] = mk_srv(in_oldtbl.refs[i], in_oldtbl.otype[i], in_oldtbl.cfg[i] != 0, snames[in_oldtbl.who[i]]);
+            /* an entry that is neither configured nor referenced would already have been freed */
+            V_ASSUME(old[i]->configured || old[i]->refs > 0);
+        }
+    }
+    V_ASSUME(!(old[0] && old[1] && in_oldtbl.who[0] == in_oldtbl.who[1]));
+    iauth_xquery_services.vec = malloc(4 * sizeof(void *)); V_ASSUME(iauth_xquery_services.vec != NULL);
+    iauth_xquery_services.size = 4; iauth_xquery_services.used = in_oldtbl.used;
+    for (i = 0; i < 2; i++) iauth_xquery_services.vec[i] = old[i];
+
+    iauth_xquery_services_changed(&root.base);                      /* REAL */
+
+    for (k = 0; k < 2; k++) {
+        const char *nm = k == 0 ? "sA" : "sB";
+        int listed = k < in_section.n;
+        unsigned ty = in_section.type[k];
+        unsigned found = 0, conf_n = 0; int tyok = 1;
+        for (i = 0; i < 4; i++) {
+            if (i < iauth_xquery_services.used && iauth_xquery_services.vec[i] && strcmp(iauth_xquery_services.vec[i]->name, nm) == 0) {
+                found++;
+                if (iauth_xquery_services.vec[i]->configured) { conf_n++; if (listed && ty < 4 && (unsigned)iauth_xquery_services.vec[i]->type != ty) tyok = 0; }
+            }
+        }
+        V_ASSERT(found <= 1, "C17: one table entry per service name");
+        if (listed && ty < 4) {
+            V_ASSERT(conf_n == 1, "C17: after a reload every service named in the new section is configured - also when it reuses a freed slot");
+            V_ASSERT(tyok, "C17: ... with the protocol the new file gives");
+        } else
+            V_ASSERT(conf_n == 0, "C17: a service the new section does not (validly) name is no longer queried");
+    }
+    /* "sC" (only in the old table) is unconfigured */
+    for (i = 0; i < 4; i++)
+        if (i < iauth_xquery_services.used && iauth_xquery_services.vec[i] && strcmp(iauth_xquery_services.vec[i]->name, "sC") == 0)
+            V_ASSERT(!iauth_xquery_services.vec[i]->configured && iauth_xquery_services.vec[i]->refs > 0, "C17: a removed service stays only while clients still await it, unconfigured");
+    V_CANARY();
+}
